@@ -3003,8 +3003,8 @@ def groupby_reduce(
     if is_bool_array and (_is_minmax_reduction(func) or _is_first_last_reduction(func)):
         result = result.astype(bool)
 
-    # Output of count has an int dtype.
-    if requires_numeric and func != "count":
+    # Output of count has an int dtype, arg reductions return positions.
+    if requires_numeric and func != "count" and not _is_arg_reduction(func):
         if is_npdatetime:
             result = result.astype(datetime_dtype)
         elif is_cftime:
